@@ -19,8 +19,8 @@ PREFIXES = ["ex", "o", "ex_1", "dn", "p2", "prov", "xsd"]
 PLAIN_PREFIXES = ["ex", "o", "ex_1", "dn", "p2"]
 
 # Local names.  All are NCName-safe except the ones in LOCALS_ODD.
-LOCALS = ["x", "y", "e1", "a1", "b", "c", "y-z", "p.q"]
-LOCALS_ODD = ["n/1", "1st", "q%41"]
+LOCALS = ["x", "y", "e1", "a1", "b", "c", "y-z", "p.q", "agent", "time"]  # two look like PROV attribute names
+LOCALS_ODD = ["n/1", "1st", "q%41", "r;2", "k=v"]  # incl. characters PROV-N would have to escape
 
 # A local part that contains a registered namespace URI (F13 trigger); only
 # ever used in the 'full' spelling under "urn:x:".
